@@ -131,14 +131,18 @@ DiaV(a) ==
     ELSE IF T.exc # "" THEN Rej("diagnostics-raised " \o T.exc)
     ELSE IF T.tr # a.g.tr THEN NA("triples differ from the reading (judged under C04)")
     ELSE LET v == FirstFail(<<
+            <<"one-answer-per-triple", Len(T.ctx) = Len(a.g.tr) /\ Len(T.inv) = Len(a.g.tr) /\ Len(T.pushed) = Len(a.g.tr)>>,
             <<"node-context-is-writing-node", T.ctx = a.g.wnode>>,
             <<"pushed-variable-is-opened-node", T.pushed = a.g.opened>>,
-            <<"appears-inverted-iff-written-inverted",
+            <<"appears-inverted-iff-written-inverted", Len(T.inv) # Len(a.g.tr) \/
                 \A i \in DOMAIN a.g.tr : a.g.tr[i][1] # a.g.tr[i][3] => T.inv[i] = a.g.winv[i]>>,
             <<"no-exception-without-markers " \o T.bare.exc, T.bare.exc = "">>,
+            \* one answer per triple, also where the answer is "unknown"
+            <<"one-answer-per-triple-without-markers",
+                Len(T.bare.ctx) = Len(a.g.tr) /\ Len(T.bare.inv) = Len(a.g.tr) /\ Len(T.bare.pushed) = Len(a.g.tr)>>,
             <<"no-pushed-variable-without-markers", T.bare.exc = "" /\ \A i \in DOMAIN T.bare.pushed : T.bare.pushed[i] = NULL>>,
             \* without markers a context is unknown unless it is a node that can have written the triple
-            <<"unknown-or-possible-context-without-markers",
+            <<"unknown-or-possible-context-without-markers", Len(T.bare.ctx) # Len(a.g.tr) \/
                 \A i \in DOMAIN a.g.tr : T.bare.ctx[i] = NULL \/ T.bare.ctx[i] = a.g.tr[i][1]
                                            \/ (a.g.tr[i][2] # ConceptRole /\ T.bare.ctx[i] = a.g.tr[i][3] /\ a.g.tr[i][3] \in Sources(a.g))>> >>, 1)
          IN IF v # Acc THEN v
